@@ -136,10 +136,16 @@ def check_controlled(ctx, cirq, n):
     rng = ctx.substream('controlled')
     reqs, meta = [], []
     for i in range(n):
-        mode = rng.choice(['gate', 'gate', 'op', 'shortcut', 'nested', 'qudit'])
+        mode = rng.choice(['gate', 'gate', 'op', 'shortcut', 'nested', 'qudit', 'qudit-shortcut'])
         nc = rng.choice([1, 1, 2])
         cdims = [2] * nc
-        if mode == 'qudit':
+        if mode == 'qudit-shortcut':
+            # X / Z power gates of a qutrit through their own controlled() / controlled_by (which special-case qubits)
+            d = rng.choice([3, 3, 4])
+            sub = rng.choice([cirq.XPowGate, cirq.ZPowGate])(dimension=d, exponent=rng.choice([1, 1, 2, 0.5, gen.rand_exponent(rng)]))
+            tdims = [d]
+            cdims = [rng.choice([2, 2, 3]) for _ in range(nc)]
+        elif mode == 'qudit':
             cdims = [rng.choice([2, 3]) for _ in range(nc)]
             tdims = [rng.choice([2, 3])]
             sub = gen.qudit_gate(cirq, rng, tdims) if tdims != [2] else gen.one_qubit_gate(cirq, rng)
@@ -152,9 +158,26 @@ def check_controlled(ctx, cirq, n):
             sub = {1: gen.one_qubit_gate, 2: gen.two_qubit_gate}[k](cirq, rng)
             tdims = [2] * k
         kind, spec, cvals = rand_control_spec(rng, cdims)
+        if mode == 'qudit-shortcut' and rng.random() < 0.6:
+            kind, spec, cvals = 'default', {'pos': [[1] for _ in cdims]}, None
         u_sub = cirq.unitary(sub)
         try:
-            if mode == 'shortcut':
+            if mode == 'qudit-shortcut':
+                cv_arg = None if cvals is None else (cirq.SumOfProducts(cvals) if kind == 'sop' else cvals)
+                if rng.random() < 0.5:
+                    cg = sub.controlled(num_controls=nc, control_values=cv_arg, control_qid_shape=tuple(cdims))
+                    got = cirq.unitary(cg)
+                else:
+                    qs = [cirq.LineQid(i, dd) for i, dd in enumerate(cdims + tdims)]
+                    try:
+                        got = cirq.unitary(sub.on(*qs[nc:]).controlled_by(*qs[:nc], control_values=cv_arg))
+                    except ValueError as e:
+                        if kind == 'default':
+                            ctx.report_witness('controlled:qudit:raises', f'controlled_by on a qudit power gate raises: {e}',
+                                               {'lines': [{'sub': repr(sub), 'control_dims': cdims}], 'impl_out': [str(e)[:200]], 'spec_out': ['block matrix'],
+                                                'theorem_or_correspondence': 'C08_controlled_apply'})
+                        raise
+            elif mode == 'shortcut':
                 cg = sub.controlled(num_controls=nc, control_values=None if cvals is None else (cirq.SumOfProducts(cvals) if kind == 'sop' else cvals),
                                     control_qid_shape=tuple(cdims))
                 got = cirq.unitary(cg)
@@ -191,6 +214,32 @@ def check_controlled(ctx, cirq, n):
             except ValueError:
                 v = False
             meta.append(('cv_validate', kind, repr(pos), cdims, None, v))
+    # control-value algebra: `&` is the product of the two sets (on the concatenated controls), `|` their union
+    for i in range(n):
+        nq = rng.choice([1, 2, 2, 3])
+        dims = [rng.choice([2, 2, 3]) for _ in range(nq)]
+
+        def rand_cv(dims_):
+            if rng.random() < 0.5:
+                return cirq.ProductOfSums([tuple(sorted(rng.sample(range(d), rng.randint(1, d)))) for d in dims_])
+            allp = list(itertools.product(*[range(d) for d in dims_]))
+            return cirq.SumOfProducts(sorted(rng.sample(allp, rng.randint(1, len(allp)))))
+
+        a, b = rand_cv(dims), rand_cv(dims)
+        c = rand_cv([rng.choice([2, 3]) for _ in range(rng.choice([1, 2]))])
+        sa, sb, sc = set(a.expand()), set(b.expand()), set(c.expand())
+        ctx.count('check', 'cv:or')
+        ctx.count('check', 'cv:and')
+        ctx.case(['cv', repr(a), repr(b), repr(c)], True)
+        got_or = set((a | b).expand())
+        if got_or != sa | sb:
+            both_pos = isinstance(a, cirq.ProductOfSums) and isinstance(b, cirq.ProductOfSums)
+            ctx.report_witness('cv:or' + (':product-of-sums' if both_pos else ''), 'the `|` of two control-value specifications is not the union of the control states they select',
+                               {'lines': [{'a': repr(a), 'b': repr(b)}], 'impl_out': [sorted(got_or)], 'spec_out': [sorted(sa | sb)], 'theorem_or_correspondence': 'cv_union'})
+        got_and = set((a & c).expand())
+        if got_and != {x + y for x in sa for y in sc}:
+            ctx.report_witness('cv:and', 'the `&` of two control-value specifications is not the product of the control states they select',
+                               {'lines': [{'a': repr(a), 'c': repr(c)}], 'impl_out': [sorted(got_and)], 'spec_out': [sorted(x + y for x in sa for y in sc)], 'theorem_or_correspondence': 'cv_product'})
     outs = ctx.driver.ask(reqs)
     for (mode, kind, sub, cdims, cvals, got), out in zip(meta, outs):
         ctx.count('check', f'controlled:{mode}')
@@ -300,6 +349,15 @@ def check_predicates(ctx, cirq, n):
             e, sh = gen.rand_exponent(rng), rng.choice([0, 0, 0.5, -0.5, 0.25, 1])
             ga = cls(exponent=e, global_shift=sh)
             gb = cls(exponent=e + rng.choice([2, 4, -2, 1, 0.5, 8, -4, 1e-10]), global_shift=sh)
+            ka = kb = cirq.num_qubits(ga)
+        if rng.random() < 0.12:  # vendor gates: equality must look at every parameter of the matrix
+            import cirq_ionq
+
+            vals = lambda: rng.choice([0, 0.1, 0.25, 0.5, 0.55, 1.1])
+            fam = rng.choice(['gpi', 'gpi2', 'ms', 'zz'])
+            mkv = {'gpi': lambda: cirq_ionq.GPIGate(phi=vals()), 'gpi2': lambda: cirq_ionq.GPI2Gate(phi=vals()),
+                   'ms': lambda: cirq_ionq.MSGate(phi0=vals(), phi1=rng.choice([0, 0.2]), theta=rng.choice([0.25, 0.1, 0.25])), 'zz': lambda: cirq_ionq.ZZGate(theta=vals())}[fam]
+            ga, gb = mkv(), mkv()
             ka = kb = cirq.num_qubits(ga)
         a = ga.on(*rng.sample(qs, ka))
         b = gb.on(*rng.sample(qs, kb))
